@@ -33,6 +33,7 @@ typedef struct {
 typedef struct { int found; char msg[512]; int sched[SX_MAXSTEPS]; int n; } sx_violation;
 
 /* violations are raised by the runtime (race, use after free, double free, deadlock, abort) and by the world's monitors */
+extern int sx_only_abort;              /* report only abort() inside the library (C20: properly moved pointers never abort) */
 void sx_fail(const char *fmt, ...) __attribute__((format(printf, 1, 2)));
 int  sx_failed(void);
 int  sx_self(void);                              /* running thread id, -1 in setup */
